@@ -18,6 +18,9 @@ def run(R, tier, seed, only=None):
     if only in (None, "numbase"):
         import numlex
         numlex.check_numbase(R, d, tier)
+    if only in (None, "numdec"):
+        import numlex
+        numlex.check_numdec(R, d, tier)
     d.close()
     R.cov["states"] = max(1, R.cov.get("states", 0))
     R.cov["transitions"] = max(1, R.cov.get("transitions", 0))
